@@ -420,6 +420,11 @@ def stress_threads(seconds=8, seed=0, nthreads=12, switch=1e-6):
     bref = {}
     for name, args in bip85_reqs:
         bref[(name, args)] = getattr(PaperWallet.from_bip39_seed_hex(seed_hex).bip85, name)(*args)
+    # paper-wallet requests of different purposes / accounts (they derive under the shared master)
+    pw_reqs = [("bip44", 0), ("bip49", 0), ("bip84", 0), ("bip44", 1), ("bip49", 2), ("bip84", 3)]
+    pref = {}
+    for name, acct in pw_reqs:
+        pref[(name, acct)] = getattr(PaperWallet.from_bip39_seed_hex(seed_hex), name)(account=acct, interval=(0, 2))
     shared = PaperWallet.from_bip39_seed_hex(seed_hex)
     mids = {(a,): shared.master.ckd(a) for a in idxs}
     root_xprv = shared.master.extended_private_key()
@@ -434,8 +439,13 @@ def stress_threads(seconds=8, seed=0, nthreads=12, switch=1e-6):
         gnode = None
         try:
             while time.time() < stop and not errs:
-                op = rng.randrange(7)
-                if op >= 5:
+                op = rng.randrange(9)
+                if op >= 7:
+                    name, acct = rng.choice(pw_reqs)
+                    got = getattr(shared, name)(account=acct, interval=(0, 2))
+                    if got != pref[(name, acct)]:
+                        raise Mismatch("purity", "threads: PaperWallet.%s(account=%d) on the shared wallet is not what a fresh wallet returns" % (name, acct))
+                elif op >= 5:
                     name, args = rng.choice(bip85_reqs)
                     got = getattr(shared.bip85, name)(*args)
                     if got != bref[(name, args)]:
@@ -487,7 +497,7 @@ def stress_threads(seconds=8, seed=0, nthreads=12, switch=1e-6):
     yrng = random.Random(seed)
 
     hot = ("derive_path", "generate_children", "address_generator", "by_path", "group", "entropy", "bip39_mnemonic", "wif",
-           "xprv", "hex", "pwd")
+           "xprv", "hex", "pwd", "bip44", "bip49", "bip84", "generate", "node_extended_keys", "determine_node_version_int")
 
     def local(frame, event, arg):
         if event == "line" and (frame.f_code.co_name in hot or yrng.random() < 0.25):
